@@ -149,21 +149,23 @@ ResetAliases == cst' = ResetF(order, cst) /\ UNCHANGED <<order, trk>>
 \* guard) and every mention of its alias is rewritten to the survivor's.  Scan order as in the implementation.
 IsEmptyRec(c) == c.def = NoDef /\ c.conv = <<>> /\ c.term = <<>> /\ c.text = <<>>
 SameContent(a, b) == a.kind = b.kind /\ a.def = b.def /\ a.conv = b.conv /\ a.term = b.term /\ a.text = b.text
-RECURSIVE DedupPass(_, _, _, _, _)
-DedupPass(i, ord, c, t, changed) ==
-  IF i > Len(ord) THEN [ord |-> ord, c |-> c, t |-> t, changed |-> changed]
+\* tr: the pairs <<erased, absorbing>> in the order of erasure (the translation the operation returns)
+RECURSIVE DedupPass(_, _, _, _, _, _)
+DedupPass(i, ord, c, t, changed, tr) ==
+  IF i > Len(ord) THEN [ord |-> ord, c |-> c, t |-> t, changed |-> changed, tr |-> tr]
   ELSE LET o == ord[i]
            cands == {j \in DOMAIN ord : j # i /\ SameContent(c[o], c[ord[j]])} IN
-       IF IsEmptyRec(c[o]) \/ cands = {} THEN DedupPass(i + 1, ord, c, t, changed)
+       IF IsEmptyRec(c[o]) \/ cands = {} THEN DedupPass(i + 1, ord, c, t, changed, tr)
        ELSE LET j == CHOOSE x \in cands : \A y \in cands : x <= y
                 dup == ord[j]
                 map == One(c[dup].alias, c[o].alias)
                 ord2 == SelectSeq(ord, LAMBDA x : x # dup)
                 c2 == [x \in DOMAIN c \ {dup} |-> RenRec(c[x], map)]
                 t2 == [x \in DOMAIN t \ {dup} |-> t[x]]
-            IN DedupPass((IF j < i THEN i - 1 ELSE i) + 1, ord2, c2, t2, TRUE)
-RECURSIVE Dedup(_, _, _)
-Dedup(ord, c, t) == LET r == DedupPass(1, ord, c, t, FALSE) IN IF r.changed THEN Dedup(r.ord, r.c, r.t) ELSE r
+            IN DedupPass((IF j < i THEN i - 1 ELSE i) + 1, ord2, c2, t2, TRUE, Append(tr, <<dup, o>>))
+RECURSIVE DedupFrom(_, _, _, _)
+DedupFrom(ord, c, t, tr) == LET r == DedupPass(1, ord, c, t, FALSE, tr) IN IF r.changed THEN DedupFrom(r.ord, r.c, r.t, r.tr) ELSE r
+Dedup(ord, c, t) == DedupFrom(ord, c, t, <<>>)
 DeleteDuplicates == LET r == Dedup(order, cst, trk) IN order' = r.ord /\ cst' = r.c /\ trk' = r.t
 
 Track(u, allow) == IF u \in Ids THEN trk' = (u :> [allowEdit |-> allow]) @@ trk /\ UNCHANGED <<order, cst>> ELSE UNCHANGED svars
